@@ -4,6 +4,36 @@ import json, os
 ROOT = os.path.dirname(os.path.dirname(os.path.abspath(__file__)))
 
 CHECKS = {
+ "C01": dict(
+  level="exploration", design="6/C01", engine="sse-product",
+  technique="bounded exhaustive enumeration (n 4..9/12 x all 0/1 weight patterns x lambda grid x impulse basis): the real ws2d source executed on Fractions vs an independent dense rational solve; compiled ws2d vs the exact solution",
+  text="Every weight pattern with >=2 positive weights up to the length bound, 7 lambdas over 1e-6..1e8 and a basis of right-hand sides; exact clause decided without tolerance on the real source, float clause against the exact rational solution. 87 listed (n,w,lambda) triples at lambda=1e8 exceed 1e-6 and are known findings.",
+  note="All y covered through linearity (impulse basis) rather than enumeration of reals; n > 12 only by a deterministic family; float results are those of this CPU / LLVM target."),
+ "C02": dict(
+  level="exploration", design="6/C02", engine="sse-product",
+  technique="bounded exhaustive differential exploration: every word over {ND,lo,mid,hi} (len 4..7/8) x 6 placeholder encodings x 8 smoother variants x parameter grid, compared bit-exactly across encodings; gap-fill via self-consistency with the fixed-lambda smoother and the C03 reference",
+  text="All 21760 (87296) words, 40 variant/parameter points, six encodings of the missing cells, kernels and accessors; complete inside the bound.",
+  note="Bit-exact equality across encodings is demanded (zero weight annihilates the placeholder exactly). Bound: length <= 7/8, three data letters."),
+ "C03": dict(
+  level="exploration", design="6/C03", engine="sse-product",
+  technique="bounded exhaustive enumeration of words x lambda x p against a reference PLS / 10-pass asymmetric reweighting built from the definition (float64 + long-double refinement, cross-checked with exact rationals), rounding with tie guard band",
+  text="Every word with >=2 valid cells x 6 lambdas x {none,4 p}; whits(s=), whits(sg=raster incl. -inf), p, six dimension orders; deterministic long series n=50..400.",
+  note="Either neighbour accepted within 1e-5 of a rounding tie; curves leaving int16 excluded (none in scope)."),
+ "C04": dict(
+  level="exploration", design="6/C04", engine="sse-product",
+  technique="bounded exhaustive enumeration of words x uniformly spaced sranges x p x lc; V-curve recomputed from its definition with condition-number error bounds (admissible arg-min sets), bit-exact self-consistency with the fixed-lambda smoother, grid choice differential",
+  text="Structure, optimality (asymmetric: union of three readings), self-consistency, float32 sgrid and lc grid choice on all words of length 5..7/8 and 12/96 sranges.",
+  note="Admissible set derived from reference quantities only; ambiguous (tied / degenerate) cases are counted in the evidence."),
+ "C05": dict(
+  level="exploration", design="6/C05", engine="sse-product",
+  technique="bounded exhaustive enumeration of words (>=5 valid), flat-with-spikes {0,5,50}^8, constants and lines with all gap patterns x sranges x robust x p; GCV arg-min under two trace definitions with error bounds; robust mode checked on what the statement fixes",
+  text="Non-robust: grid membership, arg-min admissibility, band = fixed smoother at lopt. Robust: grid membership, lines/constants reproduced, band straddles the data (sum w(y-z)=0 necessary condition), sanity bound.",
+  note="Robust constants (4.685, 1.4826, passes) are not pinned; placeholder invariance of robust mode is decided in C02."),
+ "C06": dict(
+  level="exploration", design="6/C06", engine="sse-product",
+  technique="bounded exhaustive metamorphic exploration: every line x gap pattern, every word x 5 offsets, every word reversed, through all 8 variants and their parameter grids; ties decided from reference margins",
+  text="Lines reproduced exactly; offsets and reversal commute except at reference-decided rounding / criterion ties. 6 listed inputs of the robust variants are known findings.",
+  note="Robust variants: a different lambda is tolerated only when the bands agree; their alphabet is seed-independent because of the listed findings."),
  "C17": dict(
   level="model_checking", design="6/C17", engine="sse-trie",
   technique="explicit-state exploration of the input trie (every word over {ND,4 letters} to length 7/8, every window) with a sliding-window reference automaton stepped on every edge, run against the compiled kernel and the accessor",
